@@ -16,11 +16,13 @@ import (
 
 	"github.com/gauss-project/aurorafs/pkg/boson"
 	"github.com/gauss-project/aurorafs/pkg/cac"
+	"github.com/gauss-project/aurorafs/pkg/encryption"
 	"github.com/gauss-project/aurorafs/pkg/file"
 	"github.com/gauss-project/aurorafs/pkg/file/joiner"
 	"github.com/gauss-project/aurorafs/pkg/file/pipeline"
 	"github.com/gauss-project/aurorafs/pkg/file/pipeline/bmt"
 	"github.com/gauss-project/aurorafs/pkg/file/pipeline/builder"
+	penc "github.com/gauss-project/aurorafs/pkg/file/pipeline/encryption"
 	"github.com/gauss-project/aurorafs/pkg/file/pipeline/feeder"
 	"github.com/gauss-project/aurorafs/pkg/file/pipeline/hashtrie"
 	pstore "github.com/gauss-project/aurorafs/pkg/file/pipeline/store"
@@ -196,6 +198,7 @@ const (
 	modeEnc
 	modeSmall
 	modePipe // writes go through file.ChunkPipe and builder.FeedPipeline
+	modeEncSmall
 )
 
 type Runner struct {
@@ -237,9 +240,96 @@ func smallPipeline(ctx context.Context, s storage.Putter, c, b int) pipeline.Int
 	return feeder.NewChunkFeederWriter(c, bmt.NewBmtWriter(lsw))
 }
 
+// smallEncPipeline assembles the writers of builder.newEncryptionPipeline with chunk size c and
+// branching b (references stay 64 bytes, the padding of EncryptChunk stays boson.ChunkSize).
+func smallEncPipeline(ctx context.Context, s storage.Putter, c, b int) pipeline.Interface {
+	short := func() pipeline.ChainWriter {
+		lsw := pstore.NewStoreWriter(ctx, s, storage.ModePutUpload, nil)
+		return penc.NewEncryptionWriter(encryption.NewChunkEncrypter(), bmt.NewBmtWriter(lsw))
+	}
+	tw := hashtrie.NewHashTrieWriter(c, b, boson.HashSize+encryption.KeyLength, short)
+	lsw := pstore.NewStoreWriter(ctx, s, storage.ModePutUpload, tw)
+	e := penc.NewEncryptionWriter(encryption.NewChunkEncrypter(), bmt.NewBmtWriter(lsw))
+	return feeder.NewChunkFeederWriter(c, e)
+}
+
+// segKey is the keystream segment of pkg/encryption (own implementation): H(H(key ‖ le32(ctr))).
+func segKey(key []byte, ctr uint32) []byte {
+	var c [4]byte
+	binary.LittleEndian.PutUint32(c[:], ctr)
+	return keccak(keccak(key, c[:]))
+}
+
+func xorStream(in, key []byte, initCtr uint32) []byte {
+	out := make([]byte, len(in))
+	for i := 0; i < len(in); i += 32 {
+		sk := segKey(key, initCtr+uint32(i/32))
+		for j := 0; j < 32 && i+j < len(in); j++ {
+			out[i+j] = in[i+j] ^ sk[j]
+		}
+	}
+	return out
+}
+
+// walkEnc reads the keys and padding bytes of an encrypted upload back from the references and the
+// stored chunks, top-down from `ref` (the subtree starts at content offset off): one annotation
+// token `<off>:<span>:<key>:<padding>` per chunk.  Model-free clauses on the way: every stored
+// chunk has 8 + ChunkSize bytes, decrypted data chunks are the written bytes.
+func (rn *Runner) walkEnc(ctx *core.Ctx, ref []byte, off int64, c, b int) bool {
+	if len(ref) != 64 {
+		ctx.Fail("enc-ref-length", "encrypted reference has %d bytes", len(ref))
+		return false
+	}
+	addr, key := ref[:32], ref[32:]
+	data, ok := rn.st.m[string(addr)]
+	if !ok {
+		ctx.Fail("enc-chunk-missing", "chunk %x of the encrypted tree was not Put", addr)
+		return false
+	}
+	if len(data) != 8+C {
+		ctx.Fail("enc-chunk-length", "stored encrypted chunk has %d bytes, want %d", len(data), 8+C)
+		return false
+	}
+	span := int64(binary.LittleEndian.Uint64(xorStream(data[:8], key, uint32(C/64))))
+	if span < 0 || off+span > int64(len(rn.written)) {
+		ctx.Fail("enc-span", "chunk at offset %d has span %d, content has %d bytes", off, span, len(rn.written))
+		return false
+	}
+	plen, fl, k := span, int64(c), int64(0)
+	if span > int64(c) {
+		for fl*int64(b) < span {
+			fl *= int64(b)
+		}
+		k = (span + fl - 1) / fl
+		plen = 64 * k
+	}
+	if plen > C {
+		ctx.Fail("enc-span", "chunk at offset %d: span %d needs a payload of %d bytes", off, span, plen)
+		return false
+	}
+	payload := xorStream(data[8:8+plen], key, 0)
+	pad := "-"
+	if int(plen) < C {
+		pad = hex.EncodeToString(data[8+plen:])
+	}
+	ctx.Annotate(fmt.Sprintf("%d:%d:%s:%s", off, span, hex.EncodeToString(key), pad))
+	if k == 0 {
+		if !bytes.Equal(payload, rn.written[off:off+span]) {
+			ctx.Fail("enc-leaf-content", "decrypted data chunk at offset %d differs from the written bytes", off)
+		}
+		return true
+	}
+	for i := int64(0); i < k; i++ {
+		if !rn.walkEnc(ctx, payload[64*i:64*i+64], off+i*fl, c, b) {
+			return false
+		}
+	}
+	return true
+}
+
 func (rn *Runner) params() (int, int) {
 	switch rn.mode {
-	case modeSmall:
+	case modeSmall, modeEncSmall:
 		return rn.sc, rn.sb
 	case modeEnc:
 		return C, boson.Branches / 2
@@ -251,7 +341,7 @@ func (rn *Runner) reset(mode int) {
 	rn.Close()
 	*rn = Runner{Prop: rn.Prop, mode: mode}
 	ctx := context.Background()
-	rn.st = NewStore(mode != modeEnc)
+	rn.st = NewStore(true)
 	switch mode {
 	case modePlain:
 		rn.p = builder.NewPipelineBuilder(ctx, rn.st, storage.ModePutUpload, false)
@@ -393,6 +483,16 @@ func (rn *Runner) Step(ctx *core.Ctx, op []string) string {
 		rn.sc, rn.sb = c, b
 		rn.p = smallPipeline(context.Background(), rn.st, c, b)
 		return "ok"
+	case len(op) == 4 && op[0] == "new" && op[1] == "encsmall":
+		c, ok1 := atoi(op[2])
+		b, ok2 := atoi(op[3])
+		if !ok1 || !ok2 || c <= 0 || c > C || b < 2 || 64*b > C {
+			return "bad-op"
+		}
+		rn.reset(modeEncSmall)
+		rn.sc, rn.sb = c, b
+		rn.p = smallEncPipeline(context.Background(), rn.st, c, b)
+		return "ok"
 	case len(op) == 2 && op[0] == "selftest":
 		d, ok := core.ParseSrc(op[1])
 		if !ok {
@@ -476,14 +576,13 @@ func (rn *Runner) Step(ctx *core.Ctx, op []string) string {
 		}
 		rn.root = append([]byte(nil), sum...)
 		c, b := rn.params()
-		if rn.mode == modeEnc {
-			if len(sum) != 64 {
-				ctx.Fail("enc-ref-length", "encrypted reference has %d bytes", len(sum))
-			}
-			return fmt.Sprintf("ok enc %d", rn.st.NPuts)
-		}
 		if rn.st.Bad > 0 {
 			ctx.Fail("put-invalid-chunk", "%d stored chunks fail cac.Valid", rn.st.Bad)
+		}
+		if rn.mode == modeEnc || rn.mode == modeEncSmall {
+			// the random keys / padding bytes, read back for the model
+			rn.walkEnc(ctx, sum, 0, c, b)
+			return fmt.Sprintf("ok %s %d %016x", hex.EncodeToString(sum), rn.st.NPuts, rn.st.Dig)
 		}
 		if rn.Prop == "C02" {
 			// model-free: the reference is the format's tree hash of the bytes …
@@ -500,7 +599,7 @@ func (rn *Runner) Step(ctx *core.Ctx, op []string) string {
 		if rn.root == nil {
 			return "nosum"
 		}
-		if rn.mode == modeSmall {
+		if rn.mode == modeSmall || rn.mode == modeEncSmall {
 			return "nojoin"
 		}
 		j, size, err := joiner.New(context.Background(), rn.st, storage.ModeGetRequest, boson.NewAddress(rn.root))
